@@ -2,6 +2,7 @@ package bloomsearch
 
 import (
 	"math"
+	"reflect"
 )
 
 // MinMaxIndex records the observed numeric range of a field. Values outside
@@ -32,9 +33,30 @@ func ConvertToMinMaxInt64(value any) (minVal int64, maxVal int64, ok bool) {
 	default:
 		intVal, isInt := toInt64(value)
 		if !isInt {
+			if underlying, ok := underlyingNumeric(value); ok {
+				return ConvertToMinMaxInt64(underlying)
+			}
 			return 0, 0, false
 		}
 		return intVal, intVal, true
+	}
+}
+
+// underlyingNumeric resolves a value of a named numeric type (time.Duration,
+// `type Level int32`, ...) to the predeclared integer or float type of its
+// kind, so such values are indexed like any other number. It reports false for
+// everything that is not a named numeric type.
+func underlyingNumeric(value any) (any, bool) {
+	rv := reflect.ValueOf(value)
+	switch rv.Kind() {
+	case reflect.Int, reflect.Int8, reflect.Int16, reflect.Int32, reflect.Int64:
+		return rv.Int(), true
+	case reflect.Uint, reflect.Uint8, reflect.Uint16, reflect.Uint32, reflect.Uint64, reflect.Uintptr:
+		return rv.Uint(), true
+	case reflect.Float32, reflect.Float64:
+		return rv.Float(), true
+	default:
+		return nil, false
 	}
 }
 
@@ -56,7 +78,13 @@ func ConvertToInt64(value any) (int64, bool) {
 	case float64:
 		return floatToInt64(v)
 	default:
-		return toInt64(value)
+		intVal, isInt := toInt64(value)
+		if !isInt {
+			if underlying, ok := underlyingNumeric(value); ok {
+				return ConvertToInt64(underlying)
+			}
+		}
+		return intVal, isInt
 	}
 }
 
